@@ -101,9 +101,24 @@ LEAN_KEYWORDS = {
 def lean_type(t):
     if isinstance(t, tuple) and t[0] == "tuple":
         return " × ".join(("(" + lean_type(x) + ")") if isinstance(x, tuple) else lean_type(x) for x in t[1])
-    if isinstance(t, tuple) and t[0] == "list":
+    if isinstance(t, tuple) and t[0] in ("list", "set"):     # a set is a list of which only membership is observed
         return "List " + (("(" + lean_type(t[1]) + ")") if isinstance(t[1], tuple) or " " in lean_type(t[1]) else lean_type(t[1]))
+    if isinstance(t, tuple) and t[0] == "opt":              # a local that is `None` until it gets a value of type t[1]
+        return "Option (" + lean_type(t[1]) + ")"
     return LEAN_TYPES.get(t, t)
+
+
+def set_elem_type(t):
+    """element type of a set type (None when `t` is not a set)"""
+    if t == "sset":
+        return "str"
+    if isinstance(t, tuple) and t[0] == "set":
+        return t[1]
+    return None
+
+
+def set_of(t):
+    return "sset" if t == "str" else ("set", t)
 
 
 def elem_type(t):
@@ -596,6 +611,8 @@ class _Fn:
             if not (isinstance(right, ast.Constant) and right.value is None):
                 raise Unsupported(f"{where}: `{ast.unparse(node)}` (only `is None` / `is not None`)")
             a, ta = self.expr(node.left, eff)
+            if isinstance(ta, tuple) and ta[0] == "opt":
+                return (f"{a}.isNone" if isinstance(op, ast.Is) else f"{a}.isSome"), "bool"
             if ta != "optstr":
                 raise Unsupported(f"{where}: `is None` on a {ta}")
             t = f"({a} == none)"
@@ -614,7 +631,8 @@ class _Fn:
                                       f"strings, a module constant holding one, a list or a string, and the test is "
                                       f"not an atom ({e})")
                 a, ta = self.expr(node.left, eff)
-                if (ta, tb) == ("str", "slist"):
+                if (ta, tb) == ("str", "slist") or (ta, tb) == ("str", "sset") \
+                        or (ta in self.spec.type_defaults and tb in (("list", ta), ("set", ta))):
                     t = f"({b}.contains {a})"
                 elif (ta, tb) == ("str", "str"):
                     t = f"({self.spec.prims['substr']} {a} {b})"
@@ -655,10 +673,45 @@ class _Fn:
             raise Unsupported(f"{self.fn.name}:{node.lineno}: `{ast.unparse(node)}`")
         return f"(!{self.cond(node.operand, eff)})", "bool"
 
+    def _none_test(self, test):
+        """`x is None` / `x is not None` for a local `x` that is None until it gets a value -> (x, True when the test is
+        `is None`, type of the value), else None"""
+        if isinstance(test, ast.Compare) and len(test.ops) == 1 and isinstance(test.ops[0], (ast.Is, ast.IsNot)) \
+                and isinstance(test.left, ast.Name) and isinstance(test.comparators[0], ast.Constant) \
+                and test.comparators[0].value is None and self.atom(test) is None and self.atom(test.left) is None \
+                and not any(test.left.id in sc for sc in self.scopes):
+            ty = self.locals.get(test.left.id)
+            if isinstance(ty, tuple) and ty[0] == "opt":
+                return test.left.id, isinstance(test.ops[0], ast.Is), ty[1]
+        return None
+
+    def _narrowed(self, name, ty, f):
+        """translate under the knowledge that the optional local `name` holds a value: reads of it are the payload"""
+        return self._under({name: (f"pyVal_{name}", ty)}, f)
+
+    def _empty_or(self, node, eff, ty):
+        """a branch of a conditional expression; `[]` / `set()` take the type of the other branch"""
+        if ty is not None and ((isinstance(node, ast.List) and not node.elts and elem_type(ty) is not None)
+                               or (isinstance(node, ast.Call) and isinstance(node.func, ast.Name) and node.func.id == "set"
+                                   and "set" not in self.assigned and not node.args and not node.keywords
+                                   and set_elem_type(ty) is not None)):
+            return "[]", ty
+        return self.expr(node, eff)
+
     def e_IfExp(self, node, eff):
+        nt = self._none_test(node.test)
+        if nt is not None:
+            # `x if x is not None else e`: the value branch reads the payload of the optional local
+            name, is_none, ty = nt
+            vnode, nnode = (node.orelse, node.body) if is_none else (node.body, node.orelse)
+            a, ta = self._narrowed(name, ty, lambda: self.expr(vnode, False))
+            b, tb = self._empty_or(nnode, False, ta)
+            if ta != tb:
+                raise Unsupported(f"{self.fn.name}:{node.lineno}: `{ast.unparse(node)}`: branches {ta}/{tb}")
+            return f"(match {lean_ident(name)} with | some pyVal_{name} => {a} | none => {b})", ta
         c = self.cond(node.test, eff)
         a, ta = self.expr(node.body, False)
-        b, tb = self.expr(node.orelse, False)
+        b, tb = self._empty_or(node.orelse, False, ta)
         if ta != tb:
             raise Unsupported(f"{self.fn.name}:{node.lineno}: `{ast.unparse(node)}`: branches {ta}/{tb}")
         return f"(if {c} then {a} else {b})", ta
@@ -801,6 +854,14 @@ class _Fn:
                 if elem_type(ty) is None:
                     raise Unsupported(f"{where}: `len` of a {ty} (lists only; the size of a set only compared with 0)")
                 return f"(Int.ofNat {t}.length)", "int"
+            if f.id in ("list", "set") and len(node.args) == 1:
+                t, ty = self.expr(node.args[0], eff)
+                et = elem_type(ty) if elem_type(ty) is not None else set_elem_type(ty)
+                if et is None:
+                    raise Unsupported(f"{where}: `{f.id}` of a {ty} (lists and sets only)")
+                if f.id == "list" and elem_type(ty) is None:
+                    raise Unsupported(f"{where}: `list` of a set (its order is not modelled)")
+                return t, (list_of(et) if f.id == "list" else set_of(et))   # a copy; as a set only membership is observed
             if f.id in ("max", "min") and len(node.args) == 2:
                 a, ta = self.expr(node.args[0], eff)
                 b, tb = self.expr(node.args[1], eff)
@@ -814,6 +875,11 @@ class _Fn:
                 return f"({src}.{f.id} (fun {v} => {body}))", "bool"
         if isinstance(f, ast.Attribute):
             recv, tr = self.expr(f.value, eff)
+            if set_elem_type(tr) is not None and f.attr == "intersection" and len(node.args) == 1:
+                a, ta = self.expr(node.args[0], eff)
+                if set_elem_type(tr) not in (elem_type(ta), set_elem_type(ta)):
+                    raise Unsupported(f"{where}: intersection of a {tr} with a {ta}")
+                return f"({recv}.filter (fun pyElem => {a}.contains pyElem))", tr
             if tr == "str":
                 if f.attr == "lower" and not node.args:
                     return f"({self.spec.prims['lower']} {recv})", "str"
@@ -1007,7 +1073,9 @@ class _Fn:
         if ty == "unit":
             raise Unsupported(f"{where}: None is assigned to {name!r}")
         if name in self.locals:
-            if self.locals[name] != ty:
+            if self.locals[name] == ("opt", ty):
+                t = f"some {t}"                             # a value for a local that was `None` so far
+            elif self.locals[name] != ty:
                 raise Unsupported(f"{where}: {name!r} changes its type from {self.locals[name]} to {ty}")
             self.emit(depth, f"{lean_ident(name)} := {t}")
         elif name in self.pending and self.pending[name][1] is None:
@@ -1034,7 +1102,15 @@ class _Fn:
             return self._store(name, "[]", self.spec.local_types[name], depth, top, where, value)
         if isinstance(value, ast.Call) and isinstance(value.func, ast.Name) and value.func.id == "set" \
                 and "set" not in self.assigned and "set" not in self.spec.params and not value.args and not value.keywords:
-            return self._store(name, "[]", "sset", depth, top, where, value)     # `set()`: the empty set of strings
+            ty = self.spec.local_types.get(name, "sset")    # `set()`: the empty set (of strings unless declared)
+            if isinstance(ty, tuple) and ty[0] == "opt":
+                ty = ty[1]
+            if set_elem_type(ty) is None:
+                raise Unsupported(f"{where}: `set()` assigned to {name!r}, declared a {ty}")
+            return self._store(name, "[]", ty, depth, top, where, value)
+        if isinstance(value, ast.Constant) and value.value is None and isinstance(self.spec.local_types.get(name), tuple) \
+                and self.spec.local_types[name][0] == "opt":
+            return self._store(name, "none", self.spec.local_types[name], depth, top, where, value)
         try:
             t, ty = self._expr_or_lowered(value, depth, where)
         except Unsupported:
@@ -1269,9 +1345,18 @@ class _Fn:
         self.scopes.append(scope)
         self.lam += 1
         try:
-            while body and isinstance(body[0], ast.Assign) and len(body[0].targets) == 1 \
-                    and isinstance(body[0].targets[0], ast.Name) and self.assigned.get(body[0].targets[0].id) == 1 \
-                    and body[0].targets[0].id not in all_names_outside and len(body) > 1:
+            def dropped(st):
+                # a statement pinned to the empty action: its meaning is inside an atom of this spec (it prepares an
+                # argument of a call the atom stands for)
+                return self.spec.stmts.get(dump_stmts([st])) == ""
+            while body and len(body) > 1 and (dropped(body[0]) or (
+                    isinstance(body[0], ast.Assign) and len(body[0].targets) == 1
+                    and isinstance(body[0].targets[0], ast.Name) and self.assigned.get(body[0].targets[0].id) == 1
+                    and body[0].targets[0].id not in all_names_outside)):
+                if dropped(body[0]):
+                    self.uses["stmts"].add(dump_stmts([body[0]]))
+                    body.pop(0)
+                    continue
                 name, val = body[0].targets[0].id, body[0].value
                 if name in self.logonly and _harmless(val) and self._bound(val):
                     self.logseen.add(name)
@@ -1374,9 +1459,9 @@ class _Fn:
         for b in body:
             for n in ast.walk(b):
                 if isinstance(n, ast.Name) and isinstance(n.ctx, ast.Store) \
-                        and not (n.id in self.loopvars and any(isinstance(f, ast.For) and f.target is n
+                        and not (n.id in self.loopvars and any(isinstance(f, (ast.For, ast.comprehension)) and f.target is n
                                                                for bb in body for f in ast.walk(bb))):
-                    accs.add(n.id)                          # (the target of a nested loop is not an accumulator)
+                    accs.add(n.id)                          # (the target of a nested loop / comprehension is no accumulator)
                 if isinstance(n, ast.Expr) and isinstance(n.value, ast.Call) and isinstance(n.value.func, ast.Attribute) \
                         and n.value.func.attr == "append" and isinstance(n.value.func.value, ast.Name):
                     accs.add(n.value.func.value.id)
@@ -1399,7 +1484,9 @@ class _Fn:
             elif isinstance(b, ast.Assign) and len(b.targets) == 1 and isinstance(b.targets[0], ast.Name) \
                     and b.targets[0].id == acc:
                 t, ty = self.expr(b.value, False)
-                if ty != ta:
+                if ta == ("opt", ty):
+                    t = f"(some {t})"
+                elif ty != ta:
                     raise Unsupported(f"{w}: {acc!r} changes its type from {ta} to {ty}")
                 steps.append(t)
             elif isinstance(b, ast.Expr) and isinstance(b.value, ast.Call) and isinstance(b.value.func, ast.Attribute) \
@@ -1409,6 +1496,13 @@ class _Fn:
                 if elem_type(ta) != ty:
                     raise Unsupported(f"{w}: a {ty} appended to a {ta}")
                 steps.append(f"({a} ++ [{t}])")
+            elif isinstance(b, ast.If) and self._none_test(b.test) is not None:
+                # `if x is None: … else: …`: the branch on which x holds a value reads the payload
+                name, is_none, ty = self._none_test(b.test)
+                vstmts, nstmts = (b.orelse, b.body) if is_none else (b.body, b.orelse)
+                tv = self._narrowed(name, ty, lambda: self._fold_seq(vstmts, acc, where)) if vstmts else a
+                tn = self._fold_seq(nstmts, acc, where) if nstmts else a
+                steps.append(f"(match {lean_ident(name)} with | none => {tn} | some pyVal_{name} => {tv})")
             elif isinstance(b, ast.If):
                 c = self.cond(b.test, False)
                 steps.append(f"(if {c} then {self._fold_seq(b.body, acc, where)} else "
